@@ -825,7 +825,7 @@ func hashIsEqual(v *ssa.Call) (ssa.Value, ssa.Value, bool) {
 	if fn == nil || fn.Name() != "IsEqual" || fn.Signature.Recv() == nil || len(v.Common().Args) != 2 {
 		return nil, nil, false
 	}
-	if fn.Pkg == nil || !strings.HasSuffix(strings.TrimSuffix(fn.Pkg.Pkg.Path(), "/v2"), "chaincfg/chainhash") {
+	if fn.Pkg == nil || !strings.HasSuffix(strings.TrimSuffix(fn.Pkg.Pkg.Path(), "/v2"), "/chainhash") {
 		return nil, nil, false
 	}
 	a, b := v.Common().Args[0], v.Common().Args[1]
@@ -887,11 +887,46 @@ func registerNeg(a, b string) {
 	negMu.Unlock()
 }
 
+// negAtomOf: only plain atoms take part. Every plain atom is produced by condAtom, which registers
+// it with its negation at that moment, so the answer does not depend on what was rendered before;
+// composite atoms (joins, boolean terms, loop conditions) are built elsewhere and would only be
+// known by the accident of an earlier rendering.
 func negAtomOf(a string) (string, bool) {
+	if compositeAtom(a) {
+		return "", false
+	}
 	negMu.Lock()
 	b, ok := negMap[a]
 	negMu.Unlock()
-	return b, ok
+	if !ok || compositeAtom(b) {
+		return "", false
+	}
+	return b, true
+}
+
+func compositeAtom(a string) bool {
+	a = strings.TrimPrefix(a, "!")
+	for _, p := range []string{"[", "loop(", "each(", "ite(", "μ(", "φ("} {
+		if strings.HasPrefix(a, p) {
+			return true
+		}
+	}
+	if strings.HasPrefix(a, "(") {
+		// wholly parenthesised (a short-circuit join), as opposed to "(*T).M(x)" or "(a+b) < c"
+		depth := 0
+		for i := 0; i < len(a); i++ {
+			switch a[i] {
+			case '(':
+				depth++
+			case ')':
+				depth--
+				if depth == 0 {
+					return i == len(a)-1
+				}
+			}
+		}
+	}
+	return false
 }
 
 func (c *Canon) condAtom0(cond ssa.Value, pos bool) string {
